@@ -60,7 +60,7 @@ Param Hist::genParam(const std::string& name, std::string* descr) {
 }
 
 bool Hist::opSetRate(bool analog) {
-    static const float prs[] = {50.f, 100.f, 120.f, 200.f, 29.97f, 59.94f, 60.f, 250.f, 1000.f, 29.5f, 59.5f, 100.25f, 100.5f, 0.5f, 0.25f, 0.999f, 120.75f};
+    static const float prs[] = {50.f, 100.f, 120.f, 200.f, 29.97f, 59.94f, 60.f, 250.f, 1000.f, 29.5f, 59.5f, 100.25f, 100.5f, 0.5f, 0.25f, 0.999f, 120.75f, 30.3f, 7.7f, 47.95f, 23.976f};   /* the last four: ratios that land a hair below an integer in float arithmetic */
     float pr = float0(prev, "POINT", "RATE"); float r;
     float arNow = float0(prev, "ANALOG", "RATE");
     if (!analog) { r = prs[rng.below(sizeof prs / sizeof prs[0])]; if (arNow != 0.f && !wild) r = arNow / (float)rng.range(1, (int)o.geti("maxsub", 6)); /* keep the sub-frame ratio small once the analog rate is known */ if (rng.chance(6)) r = 0.f; }
